@@ -1,5 +1,6 @@
 import PyRatesModel.Props.C01
 import PyRatesModel.Props.C03
+import PyRatesModel.Front.Paths
 /-!
 # C06 — a variable path addresses the same variable everywhere
 
@@ -10,38 +11,6 @@ modelled as the list of its leaf-node paths in declaration order (a trie); `getN
 (frontend/template/circuit.py 908-973) for patterns consisting of an exact prefix followed by `all`s, and for the single `all`.
 -/
 namespace PyRates.Paths
-
-abbrev NodePath := List String
-
-/-- glob specification: same length, every component equal or `all`; the single pattern `all` matches every node -/
-def matchesPat (pat : List String) (p : NodePath) : Bool :=
-  (pat == ["all"]) || (pat.length == p.length && (List.zip pat p).all (fun (a, b) => a == "all" || a == b))
-
-/-- specification of `get_nodes`: the matching leaf paths, in declaration order -/
-def globSpec (leaves : List NodePath) (pat : List String) : List NodePath := leaves.filter (matchesPat pat)
-
-/-- labels of the children of the current circuit, in declaration order, without repetition -/
-def children (leaves : List NodePath) : List String :=
-  (leaves.filterMap List.head?).foldl (fun acc l => if acc.contains l then acc else acc ++ [l]) []
-
-/-- the sub-circuit (or node) labelled `l` -/
-def sub (leaves : List NodePath) (l : String) : List NodePath :=
-  (leaves.filter (fun p => p.head? == some l)).map List.tail
-
-/-- model of `get_nodes` on the trie; `fuel` bounds the hierarchy depth for the single-`all` case -/
-def getNodes : Nat → List NodePath → List String → List NodePath
-  | 0, _, _ => []
-  | fuel + 1, leaves, pat =>
-    match pat with
-    | [] => []
-    | [p] =>
-      if p == "all" then
-        if leaves.all (fun q => q.length ≤ 1) then (children leaves).map (fun l => [l])
-        else (children leaves).flatMap (fun l => (getNodes fuel (sub leaves l) ["all"]).map (l :: ·))
-      else if (children leaves).contains p then [[p]] else []
-    | p :: rest =>
-      if p == "all" then (children leaves).flatMap (fun l => (getNodes fuel (sub leaves l) rest).map (l :: ·))
-      else (getNodes fuel (sub leaves p) rest).map (p :: ·)
 
 theorem children_flat (labels : List String) (hd : labels.Nodup) : children (labels.map (fun l => [l])) = labels := by
   unfold children
